@@ -44,9 +44,35 @@ sorted_unique_list(PyObject *s)
 {
     PyObject *list, *result;
     Py_ssize_t i, n;
+    int have_none = 0;
 
     list = PySequence_List(s);
     UNLESS(list) return NULL;
+#ifdef KEY_TYPE_IS_PYOBJECT
+    /* None is a legal key, smaller than every other one, but the list sort
+     * cannot order it against other objects:  set it aside.
+     */
+    {
+        PyObject *rest = PyList_New(0);
+        if (rest == NULL) {
+            Py_DECREF(list);
+            return NULL;
+        }
+        n = PyList_GET_SIZE(list);
+        for (i = 0; i < n; i++) {
+            PyObject *item = PyList_GET_ITEM(list, i);
+            if (item == Py_None)
+                have_none = 1;
+            else if (PyList_Append(rest, item) < 0) {
+                Py_DECREF(list);
+                Py_DECREF(rest);
+                return NULL;
+            }
+        }
+        Py_DECREF(list);
+        list = rest;
+    }
+#endif
     if (PyList_Sort(list) == -1) {
         Py_DECREF(list);
         return NULL;
@@ -57,6 +83,8 @@ sorted_unique_list(PyObject *s)
         Py_DECREF(list);
         return NULL;
     }
+    if (have_none && PyList_Append(result, Py_None) < 0)
+        goto Error;
     for (i = 0; i < n; i++) {
         PyObject *item = PyList_GET_ITEM(list, i);
         if (i > 0) {
